@@ -252,6 +252,46 @@ def ob_cmdline_file(n):
     return h
 
 
+def ob_cmdline_machine_files():
+    """the machine files in the recorded command line (what --wipe and the regeneration from cmd_line.txt use): cross and native files are recorded and read back
+    INDEPENDENTLY - files of one kind given on the new command line replace the recorded files of that kind only"""
+    def h():
+        import argparse, types
+        from mesonbuild import cmdline as CL
+        import configparser as CP
+        store = {}
+        def fopen(name, mode='r', **k):
+            if 'w' in mode: return _WF(store, name)
+            if name not in store: raise FileNotFoundError(name)
+            return _RF(store[name])
+        fos = types.SimpleNamespace(path=types.SimpleNamespace(join=lambda *a: '/'.join(a), isfile=lambda p: p in store), replace=lambda a, b: store.__setitem__(b, store.pop(a)))
+        saved = (CL.__dict__.get('open'), CL.os, CP.__dict__.get('open'))
+        CL.open = fopen; CL.os = fos; CP.open = fopen
+        try:
+            nm = ['a', 'b c'][choose(2, 'name')]
+            rec_cross = [[], ['c' + nm + '.ini'], ['c1.ini', 'c2.ini']][choose(3, 'recorded cross files')]
+            rec_native = [[], ['n' + nm + '.ini']][choose(2, 'recorded native files')]
+            CL.write_cmd_line_file('/b', argparse.Namespace(cmd_line_options={O.OptionKey('opt'): 'v'}, cross_file=list(rec_cross), native_file=list(rec_native)))
+            new_cross = [[], ['x.ini']][choose(2, 'cross files on the new command line')]
+            new_native = [[], ['y.ini']][choose(2, 'native files on the new command line')]
+            back = argparse.Namespace(cmd_line_options={}, cross_file=list(new_cross), native_file=list(new_native))
+            try:
+                CL.read_cmd_line_file('/b', back)
+            except Exception:
+                check(False, 'cmd_line.txt: the file meson wrote can be read back'); return
+            exp_c = new_cross or rec_cross; exp_n = new_native or rec_native
+            check(len(back.cross_file) == len(exp_c) and all(decide(bt_any(eq(a, b))) for a, b in zip(back.cross_file, exp_c)), 'cross files: those given now, else the recorded ones')
+            check(len(back.native_file) == len(exp_n) and all(decide(bt_any(eq(a, b))) for a, b in zip(back.native_file, exp_n)), 'native files: those given now, else the recorded ones')
+            cover('done')
+        finally:
+            CL.os = saved[1]
+            if saved[0] is None: del CL.open
+            else: CL.open = saved[0]
+            if saved[2] is None: del CP.open
+            else: CP.open = saved[2]
+    return h
+
+
 def ob_configure_command():
     """the real mconf.run_impl with its collaborators recorded (Conf, mintro; cmdline.update_cmd_line_file): the protocol the history obligations rely on.
     A command with -D/-U is recorded in cmd_line.txt whatever set_from_configure_command answers (restating a value is still 'the last value the user gave',
@@ -305,6 +345,7 @@ def obligations(tier):
     for n in (0, 1, 2) if q else (0, 1, 2, 3):
         out.append(Obligation('cmdline-file[%d]' % n, ob_cmdline_file(n), dict(value_length=n, alphabet='a space = # newline [ % : ; tab', keys='opt, sub:o2, build.o3', then='nothing | update | delete'),
                               labels=('done',), max_paths=3000000, classify=classify_cmdline))
+    out.append(Obligation('cmdline-machine-files', ob_cmdline_machine_files(), dict(real='cmdline.write_cmd_line_file / read_cmd_line_file (configparser, ast.literal_eval)', recorded='0-2 cross files, 0-1 native files (one name with a blank)', new_command_line='cross files given or not x native files given or not'), labels=('done',)))
     out.append(Obligation('configure-command', ob_configure_command(), dict(real='mconf.run_impl', recorded='Conf (load/save), mintro, cmdline.update_cmd_line_file', symbolic='-D/-U present, change reported, --clearcache'), labels=('configured', 'print-only')))
     import harness.c09 as c09
     out.append(Obligation('failed-reconfigure', c09.ob_failed_reconfigure(), dict(earlier_successful_saves='0..3', files='coredata.dat / .prev on the modelled file system of C09', rollback='except-branch of MesonApp._generate, mirrored'),
